@@ -331,9 +331,9 @@ def triggerOf (P : Params) (x : PixIn) : String :=
   | .centreNan => "centre_nan"
   | c =>
     let d := x.d.get
-    if Flags.hasBit x.flag stoppedBit && (c != .centreNan) && (match c with | .refine .. => false | _ => true) then
+    if !onGrid P d && sampleOf P d == 0 then "offgrid_first_sample_wraparound"
+    else if Flags.hasBit x.flag stoppedBit && (c != .centreNan) && (match c with | .refine .. => false | _ => true) then
       "bit3_already_set"
-    else if !onGrid P d && sampleOf P d == 0 then "offgrid_first_sample_wraparound"
     else if !onGrid P d then
       (match c with
        | .refine .. => "offgrid_refined"
